@@ -24,7 +24,10 @@ def configs(reads, psu, maxphot, th):
                         HeraldNs={0, 1}, MaxPhot=maxphot, PSU=psu, DispMin=2, MaxRej=0)
     bunch = cc.consts_of(NUs={2}, Numeric=True, MaxLen=3, MaxRej=0, Kinds={"bs", "herald"} | reads, Rids={1}, Convs={"Rx", "H"}, Lqs={0, 1},
                          HeraldNs={2}, MaxHer=(1,), MaxPhot=4, PSU=psu, DispMin=1)
-    return {"single": single, "single_deep": single4, "tmpl": tmpl, "bunch": bunch}
+    # every mode heralded: zero visible modes, the only input is the empty state
+    allher = cc.consts_of(NUs={2}, Numeric=True, MaxLen=4, MaxRej=0, Kinds={"bs", "herald"} | reads, Rids={1}, Convs={"Rx"}, Lqs={0},
+                          HeraldNs={0, 1}, MaxHer=(2,), MaxPhot=1, PSU=PSU_NONE, DispMin=3)
+    return {"single": single, "single_deep": single4, "tmpl": tmpl, "bunch": bunch, "allher": allher}
 
 
 def ends_in_read(r):
@@ -42,6 +45,8 @@ def run_reads(pid, tier, reads, mine, invariants, rule, psu=PSU_NONE, maxphot=2,
     if reads & {"simulate", "sdist"}:       # up to 4 photons in one mode (factorials beyond 3!) on the smallest circuits
         cc.dump_phase(chk, pid, "bunch", cs["bunch"], ["UnitaryInv"] + invariants, ["FrameProp"], mine, 1.0, 2400, {"scenario": "single", "numeric": True},
                       keep=keep, nontrivial_fn=ends_in_read)
+    cc.dump_phase(chk, pid, "allher", cs["allher"], ["UnitaryInv"] + invariants, ["FrameProp"], mine, 1.0, 1200, {"scenario": "single", "numeric": True},
+                  keep=keep, nontrivial_fn=ends_in_read)
     cc.sim_phase(chk, pid, "single_deep", cs["single_deep"], mine, nsim * (6 if th else 1), 6, {"scenario": "single", "numeric": True},
                  nontrivial_fn=ends_in_read)
     cc.sim_phase(chk, pid, "tmpl", cs["tmpl"], mine, nsim * (6 if th else 1), 7, {"scenario": "tmpl", "numeric": True, "pnu": 3, "tmpl_loss": True},
